@@ -7,7 +7,7 @@
 (* prescribes (exp) and, where an open finding changes it, the observation    *)
 (* under the named deviations (dev).  The harness replays every line on a     *)
 (* fresh runtime, a runtime with underscore loaded and a Copy() of each.      *)
-EXTENDS Naturals, Sequences, Json, TLC
+EXTENDS Naturals, Sequences, FiniteSets, Json, TLC
 CONSTANTS OpenDev
 VARIABLES blk, cs
 
@@ -23,6 +23,24 @@ ASSUME S!TableOK(STab) \/ (PrintT(<<"TABLE-ISSUES", S!TableIssues(STab)>>) /\ FA
 ASSUME /\ Len(LTab.objs) = Len(STab.objs) /\ Len(LTab.rows) = Len(STab.rows)
        /\ \A i \in 1..Len(STab.objs) : LTab.objs[i].id = STab.objs[i].id
        /\ \A i \in 1..Len(STab.rows) : LTab.rows[i].owner = STab.rows[i].owner /\ LTab.rows[i].name = STab.rows[i].name
+
+(* Every line is changed by at most one open finding; then, whichever subset of the findings has been    *)
+(* repaired in the tree, each line still equals exp (repaired) or dev (not repaired).  OpenDev holds the  *)
+(* open findings that LibShapeTab mentions.  Deviations are data: fields of table entries.               *)
+LD(d) == INSTANCE LibShape WITH Dev <- {d}
+DRows == [d \in OpenDev |-> LD(d)!Rows]
+DObjs == [d \in OpenDev |-> LD(d)!Objs]
+NoCall(o) == [o EXCEPT !.callexp = 0]
+RowLineDevs(k) == {d \in OpenDev : DRows[d][k] # STab.rows[k]}
+CallLineDevs(i) == {d \in OpenDev : DObjs[d][i].callexp # STab.objs[i].callexp}
+ObjLineDevs(i) == {d \in OpenDev : NoCall(DObjs[d][i]) # NoCall(STab.objs[i])}
+                  \cup {d \in OpenDev : \E k \in 1..Len(STab.rows) : STab.rows[k].owner = STab.objs[i].id /\ DRows[d][k].kind = "missing"}
+CrowdedLines ==
+    {<<"row", STab.rows[k].owner, STab.rows[k].name, RowLineDevs(k)>> : k \in {x \in 1..Len(STab.rows) : Cardinality(RowLineDevs(x)) > 1}}
+    \cup {<<"call", STab.objs[i].id, CallLineDevs(i)>> : i \in {x \in 1..Len(STab.objs) : Cardinality(CallLineDevs(x)) > 1}}
+    \cup {<<"obj", STab.objs[i].id, ObjLineDevs(i)>> : i \in {x \in 1..Len(STab.objs) : Cardinality(ObjLineDevs(x)) > 1}}
+    \cup {<<"forin", STab.forins[i].id>> : i \in {x \in 1..Len(STab.forins) : L!ForInExp(LTab, STab.forins[x].id) # S!ForInExp(STab, STab.forins[x].id)}}
+ASSUME CrowdedLines = {} \/ (PrintT(<<"MORE-THAN-ONE-OPEN-FINDING-ON-A-LINE", CrowdedLines>>) /\ FALSE)
 
 NO == Len(STab.objs)
 NR == Len(STab.rows)
